@@ -143,6 +143,11 @@ func cmdDump(args []string) int {
 
 // ---- check ----
 
+type smokeStat struct {
+	total       int
+	unreachable []*Obligation
+}
+
 type evObl struct {
 	Name   string `json:"name"`
 	Class  string `json:"class"`
@@ -318,6 +323,8 @@ func cmdCheck(args []string) int {
 
 	// report
 	violations := 0
+	smokeByFn := map[string]*smokeStat{}
+	replaysTried := 0
 	nObl, nDis, nSmoke, nSmokeOK := 0, 0, 0, 0
 	var evs []evObl
 	bySolver := map[string]int{}
@@ -360,12 +367,15 @@ func cmdCheck(args []string) int {
 			nSmoke++
 			if r.Status == "sat" {
 				nSmokeOK++
-			} else if r.Status == "unsat" {
-				// vacuity: a return point is unreachable under the contracts
-				violations++
-				path := writeReplay(replayDir, o, *prop)
-				fmt.Printf("VACUOUS %s: return point unreachable under the contract's assumptions\n", o.Name)
-				fmt.Printf("VIOLATION property=%s replay=%s no-failing-input-found\n", *prop, path)
+			}
+			st := smokeByFn[o.Func]
+			if st == nil {
+				st = &smokeStat{}
+				smokeByFn[o.Func] = st
+			}
+			st.total++
+			if r.Status == "unsat" {
+				st.unreachable = append(st.unreachable, o)
 			}
 			continue
 		}
@@ -406,7 +416,8 @@ func cmdCheck(args []string) int {
 		path := writeReplay(replayDir, o, *prop)
 		suffix := ""
 		confirmed := false
-		if r.Status == "sat" {
+		if r.Status == "sat" && replaysTried < 4 {
+			replaysTried++
 			confirmed = tryReplay(p, o, path)
 		}
 		if !confirmed {
@@ -415,6 +426,21 @@ func cmdCheck(args []string) int {
 		fmt.Printf("FAILED %s [%s] %s %s\n", o.Name, r.Status, o.Pos, firstLine(r.Output))
 		fmt.Printf("VIOLATION property=%s replay=%s%s\n", *prop, path, suffix)
 	}
+	// vacuity: a function none of whose return points is reachable under its contract's
+	// assumptions proves nothing
+	var unreachableNotes []string
+	for fn, st := range smokeByFn {
+		if st.total > 0 && len(st.unreachable) == st.total {
+			violations++
+			path := writeReplay(replayDir, st.unreachable[0], *prop)
+			fmt.Printf("VACUOUS %s: no return point is reachable under the contract's assumptions\n", fn)
+			fmt.Printf("VIOLATION property=%s replay=%s no-failing-input-found\n", *prop, path)
+		}
+		for _, o := range st.unreachable {
+			unreachableNotes = append(unreachableNotes, o.Name)
+		}
+	}
+	sort.Strings(unreachableNotes)
 	for _, l := range knownLines {
 		fmt.Println(l)
 	}
@@ -424,7 +450,7 @@ func cmdCheck(args []string) int {
 	}
 	wall := time.Since(t0).Seconds()
 	if !*noEvidence {
-		writeEvidence(*verif, *prop, *tier, seed, nObl, nDis, nSmoke, nSmokeOK, evs, bySolver, solverMs, fucs, trusted, assumptions, unmodelled, violations, wall, p, disagreements)
+		writeEvidence(*verif, *prop, *tier, seed, nObl, nDis, nSmoke, nSmokeOK, evs, bySolver, solverMs, fucs, trusted, assumptions, unmodelled, violations, wall, p, disagreements, unreachableNotes)
 	}
 	if *verbose {
 		for _, e := range evs {
@@ -504,7 +530,7 @@ func writeReplay(dir string, o *Obligation, prop string) string {
 }
 
 func writeEvidence(verif, prop, tier string, seed, nObl, nDis, nSmoke, nSmokeOK int, evs []evObl, bySolver map[string]int, solverMs int64,
-	fucs []string, trusted, assumptions, unmodelled map[string]bool, violations int, wall float64, p *Prog, disagreements int) {
+	fucs []string, trusted, assumptions, unmodelled map[string]bool, violations int, wall float64, p *Prog, disagreements int, unreachable []string) {
 	os.MkdirAll(filepath.Join(verif, "evidence"), 0o755)
 	var samples []evObl
 	for i, e := range evs {
@@ -539,7 +565,7 @@ func writeEvidence(verif, prop, tier string, seed, nObl, nDis, nSmoke, nSmokeOK 
 		"obligations_by_class":     byClass,
 		"discharged_by_solver":     bySolver,
 		"solver_ms_total":          solverMs,
-		"vacuity_checks":           map[string]int{"return_points_checked_reachable": nSmoke, "reachable": nSmokeOK},
+		"vacuity_checks":           map[string]any{"return_points": nSmoke, "shown_reachable_by_model": nSmokeOK, "unreachable_under_assumptions": unreachable, "rule": "a function none of whose return points is reachable fails the run; individually unreachable returns (excluded by a scope assumption) are listed"},
 		"unmodelled_calls":         sortedKeys(unmodelled),
 		"slow_obligations":         slow,
 		"contract_files":           p.cs.Files,
